@@ -360,6 +360,25 @@ fn test_sd(c: &SdCase, cx: &mut Cx) -> CaseResult {
             ("a * k", an * c.k as i128, quiet(&mut || a * c.k)),
             ("a *= k", an * c.k as i128, quiet(&mut || { let mut x = a; x *= c.k; x })),
         ];
+        // iterator sums (by value and by reference): the same exact arithmetic
+        {
+            let list = [a, b, SignedDuration::ZERO];
+            let by_val = quiet(&mut || list.iter().copied().sum::<SignedDuration>());
+            let by_ref = quiet(&mut || list.iter().sum::<SignedDuration>());
+            for (name, got) in [("sum(values)", by_val), ("sum(references)", by_ref)] {
+                let want = an + bn;
+                match got {
+                    Some(v) => {
+                        ensure!(in_range(want) && v.as_nanos() == want, format!("operator-wrong:{name}"), "{ctx}: {name} = {v:?} ({}), exact value {want}", v.as_nanos());
+                        invariant(v, name)?;
+                    }
+                    None => ensure!(!in_range(want), format!("operator-panics-in-range:{name}"), "{ctx}: {name} panics although the exact value {want} is representable"),
+                }
+            }
+            // a single element sums to itself
+            let single = quiet(&mut || [a].iter().sum::<SignedDuration>());
+            ensure!(single.map(|v| (v.as_secs(), v.subsec_nanos())) == Some((a.as_secs(), a.subsec_nanos())), "operator-wrong:sum(single)", "{ctx}: [a].iter().sum() = {single:?}");
+        }
         for (name, want, got) in ops {
             match got {
                 Some(v) => ensure!(in_range(want) && v.as_nanos() == want, format!("operator-wrong:{name}"), "{ctx}: `{name}` = {v:?} ({}), exact value {want}", v.as_nanos()),
